@@ -57,6 +57,14 @@ def search(pid, record):
                     "expected": "a frame, Incomplete or an error"}
         last = [l for l in p.stdout.splitlines() if l.startswith("{")]
         return json.loads(last[-1]) if last else {"found": False}
+    if pid == "C18":
+        h = _run(binary, ["store-background"], timeout=300)
+        for line in h.stdout.splitlines():
+            if line.startswith("{") and json.loads(line).get("found"):
+                w = json.loads(line)
+                w["scenario"] = "store-background"
+                return w
+        return {"found": False}
     if pid == "C15":
         h = _run(binary, ["server-slots"], timeout=300)
         for line in h.stdout.splitlines():
@@ -216,6 +224,10 @@ def execute(w):
         return (not found), p.stdout.strip()[-700:]
     if w.get("scenario") == "server-shutdown":
         p = _run(binary, ["server-shutdown", str(w.get("seed", "1"))], timeout=300)
+        found = p.returncode != 0 or any(l.startswith("{") and json.loads(l).get("found") for l in p.stdout.splitlines())
+        return (not found), p.stdout.strip()[-700:]
+    if w.get("scenario") == "store-background":
+        p = _run(binary, ["store-background"], timeout=300)
         found = p.returncode != 0 or any(l.startswith("{") and json.loads(l).get("found") for l in p.stdout.splitlines())
         return (not found), p.stdout.strip()[-700:]
     if w.get("scenario") == "server-slots":
